@@ -53,6 +53,19 @@ def main(srcdir, ids, run_suite=True, run_checks=True):
                 rc, o = sh(f"./check {prop}", cwd=VERIF, timeout=3000)
                 res["check_exit"] = rc
                 res["check_tail"] = "\n".join(o.strip().splitlines()[-4:])
+                import re as _re
+                m = _re.search(r"VIOLATION property=(\S+) replay=(\S+)", o)
+                if m:
+                    try:
+                        rp = json.load(open(os.path.join(VERIF, m.group(2))))
+                        res["violation_kind"] = "failing-input" if ("program" in rp or "finding" in rp) else "no-failing-input-found"
+                        res["violation_finding"] = str(rp.get("finding", rp.get("broken")))[:300]
+                        if "program" in rp and os.environ.get("HARVEST_CORPUS"):
+                            cd = os.path.join(VERIF, "corpus", prop)
+                            os.makedirs(cd, exist_ok=True)
+                            json.dump(rp["program"], open(os.path.join(cd, f"seed-{sid}.json"), "w"), indent=1)
+                    except Exception as ex:
+                        res["violation_kind"] = f"?{ex}"
             finally:
                 sh("git -C /repo checkout -- . && git -C /repo reset -q")
         out[sid] = res
@@ -63,5 +76,5 @@ def main(srcdir, ids, run_suite=True, run_checks=True):
 if __name__ == "__main__":
     src = os.path.abspath(sys.argv[1])
     ids = sys.argv[2:] or sorted(os.listdir(src))
-    r = main(src, ids)
+    r = main(src, ids, run_suite=not os.environ.get("SKIP_SUITE"))
     json.dump(r, open("/tmp/verify_seeds.json", "w"), indent=1)
